@@ -188,58 +188,46 @@ impl Cond {
 impl Expr {
     pub fn op(&self, l: &serde_json::Value, r: &serde_json::Value) -> bool {
         debug!("Expr.op op={:?}, l={l}, r={r}", self.op);
+        // two numbers are compared by their value, whatever their representation (7 == 7.0, 5 < 7.5)
+        if let (serde_json::Value::Number(v1), serde_json::Value::Number(v2)) = (l, r) {
+            let ord = cmp_number(v1, v2);
+            return match &self.op {
+                ExprOp::EQ => ord == Some(Ordering::Equal),
+                ExprOp::NE => ord != Some(Ordering::Equal),
+                ExprOp::LT => ord == Some(Ordering::Less),
+                ExprOp::LE => ord == Some(Ordering::Less) || ord == Some(Ordering::Equal),
+                ExprOp::GT => ord == Some(Ordering::Greater),
+                ExprOp::GE => ord == Some(Ordering::Greater) || ord == Some(Ordering::Equal),
+                _ => false,
+            };
+        }
         match &self.op {
             ExprOp::EQ => l == r,
             ExprOp::NE => l != r,
-            ExprOp::LT => {
-                if let (serde_json::Value::Number(v1), serde_json::Value::Number(v2)) = (l, r) {
-                    if v1.is_f64() {
-                        return v1.as_f64().unwrap() < v2.as_f64().unwrap_or_default();
-                    } else if v1.is_i64() {
-                        return v1.as_i64().unwrap() < v2.as_i64().unwrap_or_default();
-                    } else if v1.is_u64() {
-                        return v1.as_u64().unwrap() < v2.as_u64().unwrap_or_default();
-                    }
-                }
-                false
-            }
-            ExprOp::LE => {
-                if let (serde_json::Value::Number(v1), serde_json::Value::Number(v2)) = (l, r) {
-                    if v1.is_f64() {
-                        return v1.as_f64().unwrap() <= v2.as_f64().unwrap_or_default();
-                    } else if v1.is_i64() {
-                        return v1.as_i64().unwrap() <= v2.as_i64().unwrap_or_default();
-                    } else if v1.is_u64() {
-                        return v1.as_u64().unwrap() <= v2.as_u64().unwrap_or_default();
-                    }
-                }
-                false
-            }
-            ExprOp::GT => {
-                if let (serde_json::Value::Number(v1), serde_json::Value::Number(v2)) = (l, r) {
-                    if v1.is_f64() {
-                        return v1.as_f64().unwrap() > v2.as_f64().unwrap_or_default();
-                    } else if v1.is_i64() {
-                        return v1.as_i64().unwrap() > v2.as_i64().unwrap_or_default();
-                    } else if v1.is_u64() {
-                        return v1.as_u64().unwrap() > v2.as_u64().unwrap_or_default();
-                    }
-                }
-                false
-            }
-            ExprOp::GE => {
-                if let (serde_json::Value::Number(v1), serde_json::Value::Number(v2)) = (l, r) {
-                    if v1.is_f64() {
-                        return v1.as_f64().unwrap() >= v2.as_f64().unwrap_or_default();
-                    } else if v1.is_i64() {
-                        return v1.as_i64().unwrap() >= v2.as_i64().unwrap_or_default();
-                    } else if v1.is_u64() {
-                        return v1.as_u64().unwrap() >= v2.as_u64().unwrap_or_default();
-                    }
-                }
-                false
-            }
+            _ => false,
         }
+    }
+}
+
+/// the order of two numbers: integers exactly, anything else as doubles
+fn cmp_number(v1: &serde_json::Number, v2: &serde_json::Number) -> Option<Ordering> {
+    if let (Some(v1), Some(v2)) = (v1.as_i64(), v2.as_i64()) {
+        return Some(v1.cmp(&v2));
+    }
+    if let (Some(v1), Some(v2)) = (v1.as_u64(), v2.as_u64()) {
+        return Some(v1.cmp(&v2));
+    }
+    if v1.is_f64() || v2.is_f64() {
+        if let (Some(v1), Some(v2)) = (v1.as_f64(), v2.as_f64()) {
+            return v1.partial_cmp(&v2);
+        }
+        return None;
+    }
+    // an i64 below zero against an u64 beyond the i64 range
+    if v1.is_i64() {
+        Some(Ordering::Less)
+    } else {
+        Some(Ordering::Greater)
     }
 }
 
